@@ -728,6 +728,36 @@ def _set_after_success(fi: FuncInfo, name: str) -> bool:
     return True
 
 
+def _shadowed_by_prepass(prog: Program, fi: FuncInfo, r: ast.Raise,
+                         cls: str) -> bool:
+    """``r`` sits in a loop of ``fi`` and, before that loop, ``fi`` calls
+    one of its class's methods on the same collection, which raises ``cls``
+    itself (the refusal pre-pass of C04-D4b): for every caller of ``fi``
+    the pre-pass raises first, so the wording of ``r`` is never seen."""
+    loops = [a for a in ancestors(r) if isinstance(a, (ast.For, ast.While))
+             and a in fi.node.body]
+    if not loops:
+        return False
+    loop = loops[0]
+    for st in fi.node.body[:fi.node.body.index(loop)]:
+        for c in ast.walk(st):
+            if not (isinstance(c, ast.Call) and
+                    src(c.func).startswith("self._") and c.args and
+                    src(c.args[0]) == src(loop.iter.args[0]
+                                          if isinstance(loop.iter, ast.Call)
+                                          and loop.iter.args
+                                          else loop.iter)):
+                continue
+            for g in resolve_call(prog, fi, c):
+                if g is not fi and any(
+                        isinstance(x, ast.Raise) and
+                        isinstance(x.exc, ast.Call) and
+                        src(x.exc.func) == cls
+                        for x in walk_local(g.node)):
+                    return True
+    return False
+
+
 def d8_message_coupling(chk: Check) -> None:
     """yaml-set tells "refused to delete the document root" from other
     library errors by a phrase of the exception's message and silently
@@ -738,15 +768,20 @@ def d8_message_coupling(chk: Check) -> None:
     chk.rule("C17-D8", "every message phrase a tool tests an exception for "
              "occurs in a message raised by the library", floor=1)
     raised: List[str] = []
+    by_class: Dict[str, List[Tuple[FuncInfo, ast.Raise, str]]] = {}
     for fi in prog.functions.values():
         if fi.module.relpath.startswith("yamlpath/commands/"):
             continue
         for r in walk_local(fi.node):
             if isinstance(r, ast.Raise) and isinstance(r.exc, ast.Call):
+                whole = ""
                 for a in ast.walk(r.exc):
                     if isinstance(a, ast.Constant) and \
                             isinstance(a.value, str):
                         raised.append(a.value)
+                        whole += a.value
+                by_class.setdefault(src(r.exc.func), []).append(
+                    (fi, r, whole))
     n = 0
     for fi in prog.functions.values():
         if not fi.module.relpath.startswith("yamlpath/commands/"):
@@ -765,6 +800,28 @@ def d8_message_coupling(chk: Check) -> None:
                 if any(phrase in m for m in raised):
                     chk.ok("C17-D8", fi, c, text,
                            "phrase found in a raised message")
+                    # the phrase stands for "an exception of that class":
+                    # every raise of the class must carry it, or one way of
+                    # reaching the same refusal goes unrecognised
+                    for cls, sites in sorted(by_class.items()):
+                        if not any(phrase in w for _, _, w in sites):
+                            continue
+                        for rfi, r, w in sites:
+                            t2 = "{}: raise {}".format(rfi.short, cls)
+                            if _shadowed_by_prepass(prog, rfi, r, cls):
+                                chk.ok("C17-D8", rfi, r, t2,
+                                       "shadowed: a pre-pass of the same "
+                                       "function raises this class first")
+                                continue
+                            if phrase in w:
+                                chk.ok("C17-D8", rfi, r, t2,
+                                       "carries the phrase")
+                            else:
+                                chk.fail("C17-D8", rfi, r, t2,
+                                         "this {} does not carry the "
+                                         "phrase {!r} by which {} recognises "
+                                         "the refusal".format(
+                                             cls, phrase, fi.short))
                 else:
                     chk.fail("C17-D8", fi, c, text,
                              "no message raised by the library contains "
